@@ -28,8 +28,23 @@ impl AbstractFont {
 /// `salt` makes the name table differ between fonts that should not share it; `zlen` is the length
 /// of the arbitrary-tag table ZZZZ (bytes 1, 2, 3, ... so that 13 gives the historical content).
 pub fn build(f: &AbstractFont, loca_long: bool, style: u8, salt: u8, zlen: usize) -> SrcFont {
+    build_ov(f, loca_long, style, salt, zlen, false)
+}
+
+/// `overlap`: the simple glyphs with an odd glyph number carry OVERLAP_SIMPLE on their first flag (OverlapRule of
+/// MC_Woff2.tla). Two more tables than `build` documents: AAT `feat` and Graphite `Feat` (confusable known tags).
+pub fn build_ov(f: &AbstractFont, loca_long: bool, style: u8, salt: u8, zlen: usize, overlap: bool) -> SrcFont {
     let n = f.glyphs.len();
-    let recs: Vec<Vec<u8>> = f.glyphs.iter().map(|g| write_glyph(g, style)).collect();
+    let mut recs: Vec<Vec<u8>> = f.glyphs.iter().map(|g| write_glyph(g, style)).collect();
+    if overlap {
+        for (g, r) in recs.iter_mut().enumerate() {
+            if g % 2 == 1 {
+                if let Some(at) = super::glyph::first_flag_offset(r) {
+                    r[at] |= 0x40;
+                }
+            }
+        }
+    }
     let (glyf, loca) = fontgen::glyf_loca(&recs, loca_long);
     let long: Vec<(u16, i16)> = (0..f.nhm).map(|g| (f.adv[g], f.lsb[g])).collect();
     let lsbs: Vec<i16> = (f.nhm..n).map(|g| f.lsb[g]).collect();
@@ -47,6 +62,8 @@ pub fn build(f: &AbstractFont, loca_long: bool, style: u8, salt: u8, zlen: usize
         ("post", fontgen::post_v3()),
         ("cvt ", vec![0, 10, 0, 20, 255, 246]),
         ("ZZZZ", (1..=zlen).map(|k| (k % 256) as u8).collect()),
+        ("feat", vec![0, 1, 0, 0, 0, 0, 0, 0, 0, 0, 0, 0, b'a', b'a', b't', salt]),
+        ("Feat", vec![0, 2, 0, 0, 0, 0, 0, 0, 0, 0, 0, 0, b'G', b'r', salt]),
     ];
     SrcFont { flavor: 0x00010000, tables: tables.into_iter().map(|(t, d)| (tag_u32(t), d)).collect() }
 }
